@@ -16,7 +16,8 @@ EXPLANATION = (
     "equal the originals identically, for the 'manual' and the 'lapack' solver (the latter as exact forward substitution), and the "
     "two solvers must agree; conversely the inflow found for a generic prescribed stock drives an inflow-driven model back to that "
     "stock. Also: the solver names accepted by the validators are exactly the branches of the dispatch. Decides exact (real-number) "
-    "inverse-ness on the enumerated grid shapes; floating-point agreement of the two solvers is not decided.")
+    "inverse-ness on the enumerated grid shapes; floating-point agreement of the two solvers is not decided. "
+    "Also the zero driver, column-major (non-contiguous) stock arrays, parameters varying along one label dimension only; solver names: the sets accepted by StockDrivenDSM and StockDefinition coincide, contain manual and lapack, and every accepted name computes (decided by evaluating every candidate literal).")
 TECHNIQUE = "static analysis: abstract interpretation over exact symbolic rational forms (forward substitution on symbols) on bounded grids + dispatch exhaustiveness rule"
 
 
